@@ -2,7 +2,7 @@
 from facts import AnalysisBroken
 from model import (dstr, strip, fact_holds, mentions_field, mentions_call, mentions_var,
                    mentions_enum, const_value, walk)
-from rules import (guarded, calls_to, field_writes, who_may_write, loops_over, basename, origins,
+from rules import (stores_to, guarded, calls_to, field_writes, who_may_write, loops_over, basename, origins,
                    is_var, is_enum, lastname, reject_if, _resolve_local, reached_only_via)
 from props.scan_common import OUTDIRTY, ts_comparisons, check_prune_recheck, check_recheck_is_full, all_clean_loops, all_clean_base
 from rules import justified
@@ -24,7 +24,7 @@ def run(ctx):
     n = 0
     for e in rei.events('asg'):
         l = strip(e['l'])
-        if is_var('dirty')(l) or mentions_var(l, 'most_recent_input'):
+        if stores_to('dirty')(l) or mentions_var(l, 'most_recent_input'):
             n += 1
             guarded(ctx, 'C03.G1', rei, e, oo, True, 'only regular (non-order-only) inputs influence dirtiness',
                     construct='inputs-scan:order-only-influences:%s' % dstr(l))
